@@ -553,17 +553,27 @@ def _node_representer(dumper, node):
 
     to_infer = list(tags_to_infer.keys())
 
+    # what the node would get if nothing was written for it: the value handed down by its parent, otherwise its type's default
+    inherited = {
+        'priority': parent_metadata.get('priority', None) if parent_metadata else None,
+        'delete': node._implicit_delete,
+        'allow_new': node._implicit_allow_new,
+        'safe': node._implicit_safe
+    }
+
     for f in to_infer:
         if f not in metadata:
             continue
 
         current = metadata[f]
-        parent = parent_metadata.get(f, None) if parent_metadata else None
-        default = type_defaults[f]
-        if current is not None:
-            if current == parent or current == default:
-                del metadata[f]
-        else:
+        implied = inherited[f] if inherited[f] is not None else type_defaults[f]
+        if current is None:
+            del metadata[f]
+        elif current == implied:
+            if f == 'delete' and isinstance(node, ComposedNode) and current != (type_defaults[f] or inherited[f]):
+                continue # its children would inherit something else if it was not written, see ComposedNode._get_child_kwargs
+            if f == 'delete' and current and not node:
+                continue # an explicit !del on an empty node means "remove the key", which no default implies
             del metadata[f]
 
     metadata = { key: value for key, value in metadata.items() if key not in dumper.exclude_metadata }
@@ -621,7 +631,7 @@ def _node_representer(dumper, node):
                 if data is None:
                     assert tag.startswith('!null')
                     with dumper.force_unquoted():
-                        return dumper.represent_scalar('!null', '', style='')
+                        return dumper.represent_scalar(tag, '', style='')
                 with dumper.force_unquoted():
                     if isinstance(data, ConfigScalar):
                         return dumper.represent_scalar(tag, repr(data._dyn_base(data)))
